@@ -127,6 +127,12 @@ def cases(rng, tier, shard, nshards):
             det = 'menger' if rng.random() < 0.6 else det
             pts, meta = gen.curve(rng, nmax=60, nmin=5, family='collinear0')
         lay = gen.pick_layout(rng, pts)
+        if rng.random() < 0.04:
+            # integral coordinates of magnitude 1e9..1e13 as int64 (bytes, ns): the recursion must use the detector's answer
+            # on the very representation it was given, whatever int64 arithmetic makes of it
+            pts, meta, lay = gen.large_int_curve(rng, nmax=60), {'family': 'large-int64'}, 'i64'
+            if rng.random() < 0.5:
+                pts = pts * np.array([1.0, float(10 ** int(rng.integers(1, 4)))])
         if rng.random() < 0.15 and len(pts) > 5:
             # exact tie: t1 equal to the realised SMAPE of the curve or of a prefix (>= vs > is observable)
             sub = gen.present(pts, lay)[:len(pts) if rng.random() < 0.6 else int(rng.integers(5, len(pts) + 1))]
